@@ -227,6 +227,19 @@ def check_map_case(ctx: Ctx, c: Dict[str, Any], variant: int = 0) -> None:
             Tf = torch.cat([Tf, torch.zeros(len(M), 1, dtype=Tf.dtype)], dim=1)
         if tuple(Tf.shape) != (len(M), len(M[0])) or max_err(Tf, fl(M)) > bound(scale, F32):
             report("grid_vectors_transform" if vec else "grid_points_transform", max_err(Tf, fl(M)) if tuple(Tf.shape) == (len(M), len(M[0])) else float("inf"), bound(scale, F32))
+    # 3e. path independence at the level of the MATRICES: the matrix of a -> b is the product (core.linalg.hmm) of the matrices a -> m and m -> b
+    #     for every intermediate axes m (the maps between the two cube conventions are square matrices, the others homogeneous ones)
+    if g2 is None and not vec:
+        from deepali.core.linalg import as_homogeneous_matrix, hmm
+
+        for m_ in ("grid", "world", "cube", "cube_corners"):
+            if m_ in (a, b) or (m_ == "cube_corners" and min(g.size()) < 2):
+                continue
+            prod = guarded("hmm", lambda: as_homogeneous_matrix(hmm(g.transform(m_, b), g.transform(a, m_))).double(), via=m_)
+            if prod is not None:
+                e_ = max_err(prod, fl(M)) if tuple(prod.shape) == (len(M), len(M[0])) else float("inf")
+                if e_ > bound(scale, F32, 1e-5):
+                    report("hmm(T(m->b), T(a->m))", e_, bound(scale, F32, 1e-5), via=m_)
     # 4. the homogeneous POINT matrix of the case applied through core.linalg / core.affine: to points with vectors=False,
     #    to displacements with vectors=True (the translation column must then be ignored)
     from deepali.core import affine as A_
